@@ -126,15 +126,14 @@ class ArchiveScanner:
             bid = bytes.fromhex(bidHex[0:2] + bidHex[3:5] + bidHex[6:])
             seen.add(bid)
 
-            # Validate entry in caching db. Delete entry if stat has changed.
-            # The database will clean the 'refs' table automatically.
+            # Validate entry in caching db. Delete entry and its references if
+            # stat has changed.
             self.__db.execute("SELECT stat FROM files WHERE bid=? AND arch=?",
                                 (bid, self.__archiveKey))
             cachedStat = self.__db.fetchone()
             if cachedStat is not None:
                 if cachedStat[0] == st: return
-                self.__db.execute("DELETE FROM files WHERE bid=? AND arch=?",
-                    (bid, self.__archiveKey))
+                self.remove(bid)
 
             # read audit trail
             if verbose: print("\tscan", fileName)
@@ -162,6 +161,10 @@ class ArchiveScanner:
     def remove(self, bid):
         self.__cleanup = True
         self.__db.execute("DELETE FROM files WHERE bid=? AND arch=?",
+            (bid, self.__archiveKey))
+        # The references must go at once. They would otherwise still be
+        # followed by the current command.
+        self.__db.execute("DELETE FROM refs WHERE bid=? AND arch=?",
             (bid, self.__archiveKey))
 
     def deleteFile(self, filename):
